@@ -873,7 +873,9 @@ def check_scalar_transforms(fx, R, S):
     """R6: the scalar overloads of SphericalTransform / PolarTransform (arguments are plain numbers: nothing but their NAMES says which is which) are read with the argument each parameter name stands for and
     must return the coordinate their own name stands for, on witness points of the quantifier (evaluated to 30 digits; angles compared modulo 2 pi)."""
     rr, aa, ee = sp.Rational(7, 4), sp.Rational(-11, 10), sp.Rational(6, 5)
-    wit3 = [(rr, aa, ee), (sp.Rational(1, 10 ** 5), sp.Rational(5, 2), sp.Rational(1, 3)), (sp.Integer(10 ** 5), sp.Rational(-3, 1), sp.Rational(29, 10))]
+    wit3 = [(rr, aa, ee), (sp.Rational(1, 10 ** 5), sp.Rational(5, 2), sp.Rational(1, 3)), (sp.Integer(10 ** 5), sp.Rational(-3, 1), sp.Rational(29, 10)),
+            # points exactly on a coordinate axis / in a coordinate plane (a component that is exactly zero), and a very elongated one
+            (rr, sp.Integer(0), ee), (rr, sp.pi / 2, ee), (sp.Rational(25, 2), sp.pi, sp.pi / 2), (sp.Integer(3), -sp.pi / 2, sp.pi / 2), (sp.Integer(100), sp.Rational(1, 10 ** 22), sp.pi / 2)]
     for cls, dim in (('SphericalTransform', 3), ('PolarTransform', 2)):
         fns_ = [f for f in fx.functions.values() if f['q'].startswith(NS + cls + '::') and f['q'].endswith('<%s>' % S) and f.get('body') is not None and f.get('params')
                 and all((p_.get('t') or {}).get('c') == 'fp' for p_ in f['params'])]
@@ -909,7 +911,7 @@ def check_scalar_transforms(fx, R, S):
                     bad = bad or ((r_, a_, e_) if dim == 3 else (r_, a_), got, wantv)
             if bad:
                 R.violated('R6', '%s::%s(scalars):value' % (cls, f['name']), 'called with the coordinates its parameter names stand for (%s) at the point (range, azimut%s) = %s, %s() returns %s, not the %s %s of that '
-                           'point: a scalar argument is handed on in the wrong position, so the scalar API is not the inverse map (and disagrees with the point overloads) [%s]' % (
+                           'point: the scalar API is not the inverse map there (a scalar argument handed on in the wrong position, a special case that misfires ...) [%s]' % (
                                ', '.join(p_['name'] for p_ in f['params']), ', elevation' if dim == 3 else '', tuple(str(v_) for v_ in bad[0]), f['name'], sp.N(bad[1], 8), f['name'], sp.N(bad[2], 8), S),
                            fx.rel(f['loc']), 'E-ORD')
             elif unknown:
@@ -923,7 +925,9 @@ def check_point_transforms(fx, R, S):
     after (the conversions and the scalar overloads are judged separately; these are public entry points of their own)."""
     import re
     rr, aa, ee = sp.Rational(7, 4), sp.Rational(-11, 10), sp.Rational(6, 5)
-    wit3 = [(rr, aa, ee), (sp.Rational(1, 10 ** 5), sp.Rational(5, 2), sp.Rational(1, 3)), (sp.Integer(10 ** 5), sp.Rational(-3, 1), sp.Rational(29, 10))]
+    wit3 = [(rr, aa, ee), (sp.Rational(1, 10 ** 5), sp.Rational(5, 2), sp.Rational(1, 3)), (sp.Integer(10 ** 5), sp.Rational(-3, 1), sp.Rational(29, 10)),
+            # points exactly on a coordinate axis / in a coordinate plane (a component that is exactly zero), and a very elongated one
+            (rr, sp.Integer(0), ee), (rr, sp.pi / 2, ee), (sp.Rational(25, 2), sp.pi, sp.pi / 2), (sp.Integer(3), -sp.pi / 2, sp.pi / 2), (sp.Integer(100), sp.Rational(1, 10 ** 22), sp.pi / 2)]
     n = 0
     for cls, dim in (('SphericalTransform', 3), ('PolarTransform', 2)):
         fns_ = [f for f in fx.functions.values() if f['q'].startswith(NS + cls + '::') and f.get('body') is not None and len(f.get('params', [])) == 1
